@@ -192,3 +192,79 @@ macro_rules! returned {
         }
     }};
 }
+
+/// Does an assertion message carry the focus property's tag? Messages start with the ids of the
+/// properties they express ("C12 C14 ..."); untagged messages are always active.
+pub const fn focus_on(msg: &str, focus: Option<&str>) -> bool {
+    let f = match focus {
+        None => return true,
+        Some(f) => f.as_bytes(),
+    };
+    if f.len() == 0 {
+        return true;
+    }
+    let m = msg.as_bytes();
+    let mut i = 0;
+    let mut any_tag = false;
+    loop {
+        // a tag is 'C' followed by digits, terminated by a space
+        if i >= m.len() || m[i] != b'C' {
+            break;
+        }
+        let mut j = i + 1;
+        while j < m.len() && m[j] >= b'0' && m[j] <= b'9' {
+            j += 1;
+        }
+        if j == i + 1 || j >= m.len() || m[j] != b' ' {
+            break;
+        }
+        any_tag = true;
+        // compare m[i..j] with f
+        if j - i == f.len() {
+            let mut k = 0;
+            let mut eq = true;
+            while k < f.len() {
+                if m[i + k] != f[k] {
+                    eq = false;
+                }
+                k += 1;
+            }
+            if eq {
+                return true;
+            }
+        }
+        i = j + 1;
+    }
+    !any_tag
+}
+
+#[cfg(not(kani))]
+pub fn focus_on_rt(msg: &str) -> bool {
+    match std::env::var("VERIF_FOCUS") {
+        Ok(f) => focus_on(msg, Some(&f)),
+        Err(_) => true,
+    }
+}
+
+/// Tagged assertion. Normally a plain `assert!`. When the crate is compiled with the environment
+/// variable VERIF_FOCUS=<property id>, assertions tagged only for other properties are skipped
+/// (neither asserted nor assumed), so that an earlier failing assertion of another property cannot
+/// mask this property's own assertions (Kani assumes an assertion after checking it).
+#[macro_export]
+macro_rules! check {
+    ($cond:expr, $msg:literal $(,)?) => {{
+        #[cfg(kani)]
+        {
+            const ON: bool = $crate::nd::focus_on($msg, option_env!("VERIF_FOCUS"));
+            if ON {
+                assert!($cond, $msg);
+            }
+        }
+        #[cfg(not(kani))]
+        {
+            if $crate::nd::focus_on_rt($msg) {
+                assert!($cond, "{}", $msg);
+            }
+        }
+    }};
+}
